@@ -1,8 +1,10 @@
 // Harness for C14 (prepared statements; sequential + logical core): random operation sequences on the
 // REAL internal/lru.Cache and on the REAL preparedLRU holding real *inflightPrepare values (lookup-or-
 // insert critical section, flight completion incl. the failure path's remove-by-key, evictPreparedID,
-// clear), plus AST-level expectations on conn.go prepareStatement / executeQuery. Answers are compared
-// with the Lean models (lean/Model/LRU.lean, lean/Model/Prepare.lean).
+// clear), plus AST-level expectations on conn.go prepareStatement / executeQuery, plus the cache key itself
+// (near.go: the real keyFor on near-colliding byte-string triples; ops keyfor / keypair / keypairX and the
+// single-flight protocol over near-colliding groups, ops lookupx / completex / unprepx). Answers are compared
+// with the Lean models (lean/Model/LRU.lean, lean/Model/Prepare.lean); keypair with the specification.
 package main
 
 import (
@@ -118,6 +120,8 @@ func (st *state) exec(op string) (res string) {
 		return fmt.Sprintf("ev=%s len=%d", ev(e), st.p.Len())
 	case "pdrain":
 		return "ev=" + ev(st.p.Clear())
+	case "keyfor", "keypair", "keypairX", "lookupx", "unprepx", "completex":
+		return st.execNear(w)
 	case "ast":
 		return astFacts()
 	case "seq":
@@ -394,6 +398,8 @@ func main() {
 		}
 		emit("pdrain", "plru/drain")
 	}
+	// 3. the cache key on near-colliding triples (real keyFor), single flight over near-colliding groups
+	nearTier(r, out, emit, mult)
 	if tier == "thorough" {
 		// exhaustive small scope: every sequence of length <= 5 over {lookup a, lookup b, complete-ok/fail of
 		// flights 0,1, unprep a} with cache sizes 1 and 2
